@@ -777,6 +777,50 @@ func (s *gstate) twin(urls []string, docs map[string]any, spell Spelling) {
 	docs[dst] = cp
 }
 
+// Rehome moves the document at URL from to URL to: every `$ref` that designates it is respelled as an absolute
+// URL of the new home, and its own `$ref`s that carry a path are respelled as absolute URLs of their (unchanged)
+// targets, so that nothing depends on where it used to be.
+func Rehome(c GraphCase, from, to string) GraphCase {
+	if _, ok := c.Docs[from]; !ok || from == c.Root {
+		return c
+	}
+	out := GraphCase{Root: c.Root, Docs: map[string]string{}}
+	for u, d := range c.Docs {
+		var v any
+		_ = json.Unmarshal([]byte(d), &v)
+		var walk func(n any)
+		walk = func(n any) {
+			switch x := n.(type) {
+			case map[string]any:
+				if r, ok := x["$ref"].(string); ok {
+					if tp, err := model.Resolve(u, r); err == nil {
+						switch {
+						case tp.Doc == from && !(u == from && strings.HasPrefix(r, "#")):
+							x["$ref"] = to + fragmentOf(tp.Ptr, false)
+						case u == from && !strings.HasPrefix(r, "#") && r != "":
+							x["$ref"] = tp.Doc + fragmentOf(tp.Ptr, false)
+						}
+					}
+				}
+				for _, e := range x {
+					walk(e)
+				}
+			case []any:
+				for _, e := range x {
+					walk(e)
+				}
+			}
+		}
+		walk(v)
+		b, _ := json.Marshal(v)
+		if u == from {
+			u = to
+		}
+		out.Docs[u] = string(b)
+	}
+	return out
+}
+
 // plug turns a hole without any possible target into plain content.
 func (s *gstate) plug(h hole) {
 	delete(h.holder, "description")
